@@ -100,19 +100,38 @@ def lex(s):
     return toks, "".join(text), bad
 
 
+# expressions that make the rules use each preference-driven command (capital letters: pitch / beep / word; long expressions: pauses)
+FEATURES = ["<math><mi>B</mi><mo>+</mo><mi>c</mi></math>", "<math><mi>Δ</mi><mi>X</mi><mo>=</mo><mi mathvariant='bold'>R</mi></math>", "<math><mi>Б</mi><mo>-</mo><mi>ABC</mi></math>",
+            "<math><mfrac><mrow><mi>A</mi><mo>+</mo><mn>1</mn></mrow><mrow><mi>b</mi><mo>-</mo><mi>C</mi></mrow></mfrac><mo>=</mo><msqrt><mi>D</mi></msqrt></math>"]
+
+
 def squeeze(text):
     return [ord(c) for c in re.sub(r"[\s,;]", "", text)]
 
 
-def config(rng):
-    return {"Rate": rng.choice(["80", "180", "400"]), "Pitch": rng.choice(["0", "20", "-20"]), "Volume": rng.choice(["50", "100"]),
-            "PauseFactor": rng.choice(["0", "100", "300"]), "MathRate": rng.choice(["100", "100", "150", "60"]),
-            "CapitalLetters_Pitch": rng.choice(["0", "20", "-15"]), "CapitalLetters_Beep": rng.choice(["true", "false"]),
-            "CapitalLetters_UseWord": rng.choice(["true", "false"]), "Bookmark": rng.choice(["true", "false"]),
-            "SpeechStyle": rng.choice(["ClearSpeak", "SimpleSpeak"]), "Verbosity": rng.choice(["Terse", "Medium", "Verbose"]),
-            "Language": rng.choice(["en", "en", "es", "fi", "sv"]),
-            # the engine's voice selection tags (SAPI5 <voice required=...>, SSML <voice name=...>)
-            "Gender": rng.choice(["none", "none", "male", "female"]), "Voice": rng.choice(["none", "none", "Zira", "Microsoft David"])}
+# the numeric preferences at the points where the engines' unit conversions change behaviour (SAPI5 rounds a relative pitch to whole
+# steps and takes a logarithm of the rate; SSML passes the number through): zero, the smallest values either side of it, values
+# with a fraction, ordinary values, the ends of the documented ranges
+DOMAINS = {"Rate": ["80", "180", "400", "100", "30", "181.5"], "Pitch": ["0", "20", "-20", "1", "-1", "0.5", "100", "-60", "12.5"], "Volume": ["50", "100", "0", "1", "33.3"],
+           "PauseFactor": ["0", "100", "300", "1", "50.5"], "MathRate": ["100", "150", "60", "101", "99.5", "300"],
+           "CapitalLetters_Pitch": ["0", "20", "-15", "1", "-1", "0.5", "1.25", "100", "-60"]}
+
+
+def config(rng, ci=None):
+    """ci: the index of the configuration - every value of every numeric preference is used by some configuration of a run (the
+    domains are walked through in a seeded order), the remaining preferences are drawn."""
+    cfg = {}
+    for k, dom in DOMAINS.items():
+        order = list(dom)
+        random.Random(f"{C.seed()}|{k}").shuffle(order)
+        cfg[k] = order[ci % len(order)] if ci is not None else rng.choice(dom)
+    cfg.update({"CapitalLetters_Beep": rng.choice(["true", "false"]),
+                "CapitalLetters_UseWord": rng.choice(["true", "false"]), "Bookmark": rng.choice(["true", "false"]),
+                "SpeechStyle": rng.choice(["ClearSpeak", "SimpleSpeak"]), "Verbosity": rng.choice(["Terse", "Medium", "Verbose"]),
+                "Language": rng.choice(["en", "en", "es", "fi", "sv"]),
+                # the engine's voice selection tags (SAPI5 <voice required=...>, SSML <voice name=...>)
+                "Gender": rng.choice(["none", "none", "male", "female"]), "Voice": rng.choice(["none", "none", "Zira", "Microsoft David"])})
+    return cfg
 
 
 def run(tier):
@@ -129,8 +148,8 @@ def run(tier):
     n_cfg, n_expr = (12, 70) if tier == "quick" else (60, 400)
     scripts = []
     for ci in range(n_cfg):
-        cfg = config(rng)
-        exprs = rng.sample(corpus, n_expr) + EMPTY_MATH
+        cfg = config(rng, ci)
+        exprs = rng.sample(corpus, n_expr) + EMPTY_MATH + FEATURES
         ops = [{"op": "set_rules_dir", "dir": "$RULES"}] + [{"op": "set_pref", "name": k, "value": v} for k, v in cfg.items()]
         tags = [None] * len(ops)
         for e in exprs:
